@@ -33,7 +33,7 @@ class Job:
                  unwind=None, label="proof", defines=None, min_post=1, min_lis=0,
                  timeout=900, tiers=("quick", "thorough"), solver=None, note="",
                  replay=None, objbits=None, extra_cbmc=(), fallback=True, maxw=None,
-                 expect_fail=(), src=None, unwindset=None, cost=10, family=None, optional=False, canary_from=None):
+                 expect_fail=(), src=None, unwindset=None, cost=10, family=None, optional=False, canary_from=None, split=0):
         self.name = name; self.driver = driver; self.entry = entry
         self.enforce = enforce; self.replace = list(replace); self.mode = mode
         self.unwind = unwind; self.label = label; self.defines = dict(defines or {})
@@ -41,7 +41,7 @@ class Job:
         self.tiers = tiers; self.solver = solver; self.note = note; self.replay = replay
         self.objbits = objbits; self.extra_cbmc = list(extra_cbmc); self.fallback = fallback
         self.maxw = maxw; self.expect_fail = list(expect_fail); self.src = src
-        self.unwindset = unwindset; self.cost = cost; self.family = family; self.optional = optional; self.canary_from = canary_from
+        self.unwindset = unwindset; self.cost = cost; self.family = family; self.optional = optional; self.canary_from = canary_from; self.split = split
 
     def maxw_for(self, tier):
         if self.maxw is not None:
@@ -61,8 +61,17 @@ def _limits(mem_kb):
     return f
 
 
+import threading
+CPU_SLOTS = threading.BoundedSemaphore(int(os.environ.get("VERIF_JOBS", "0") or 0) or min(16, os.cpu_count() or 4))
+
+
 def run(cmd, timeout, mem_kb=20_000_000, env=None, cwd=None):
-    """returns (rc, stdout, stderr, seconds, timed_out)"""
+    """returns (rc, stdout, stderr, seconds, timed_out); at most CPU_SLOTS processes at a time"""
+    with CPU_SLOTS:
+        return _run(cmd, timeout, mem_kb, env, cwd)
+
+
+def _run(cmd, timeout, mem_kb=20_000_000, env=None, cwd=None):
     t0 = time.time()
     try:
         p = subprocess.Popen(cmd, stdout=subprocess.PIPE, stderr=subprocess.PIPE,
@@ -222,18 +231,55 @@ def execute(job, tier, builddir, maxw, solver, log):
     unwind = job.unwind if job.mode in ("unwind", "plain") or job.unwind else None
     cmd = cbmc_cmd(job, main_bin, solver, unwind=unwind)
     res["checker_cmd"] = " ".join(cmd)
-    rc, out, err, secs, to = run(cmd, job.timeout, env=solver_env(solver))
-    res["seconds"] = secs
-    open(base + ".main.json", "w").write(out)
-    if to:
-        res["status"] = "timeout"
-        res["errors"].append("cbmc timed out after %ds" % job.timeout)
-        return res
-    results, msgs, status = parse_cbmc_json(out)
-    if results is None or status is None or (not results and status != "success"):
-        res["status"] = "tool-error"
-        res["errors"].append("cbmc gave no result list (rc=%s): %s" % (rc, (err or out)[-1500:]))
-        return res
+    groups = [None]
+    if job.split:
+        # property splitting: one solver query per postcondition, one for the loop obligations and
+        # job.split chunks for the remaining (safety) obligations; same binary, same flags.
+        rc, out, err, secs, to = run(cbmc_cmd(job, main_bin, "sat", unwind=unwind) + ["--show-properties"], 300)
+        try:
+            plist = [p["name"] for item in json.loads(out) if "properties" in item for p in item["properties"]]
+        except Exception:
+            plist = []
+        if plist:
+            post = [p for p in plist if ".postcondition." in p]
+            loop = [p for p in plist if re.search(r"\.loop_", p)]
+            rest = [p for p in plist if p not in set(post) and p not in set(loop)]
+            groups = [[p] for p in post]
+            if loop:
+                groups.append(loop)
+            k = max(1, job.split)
+            for i in range(k):
+                chunk = rest[i::k]
+                if chunk:
+                    groups.append(chunk)
+            res["split_groups"] = len(groups)
+
+    def solve(group):
+        c = cbmc_cmd(job, main_bin, solver, props=group, unwind=unwind)
+        return run(c, job.timeout, env=solver_env(solver))
+
+    if len(groups) == 1:
+        outs = [solve(groups[0])]
+    else:
+        with ThreadPoolExecutor(max_workers=len(groups)) as ex:
+            outs = list(ex.map(solve, groups))
+    results, msgs, status = [], [], "success"
+    res["seconds"] = sum(o[3] for o in outs)
+    res["group_seconds"] = [round(o[3], 1) for o in outs]
+    open(base + ".main.json", "w").write("\n".join(o[1] for o in outs))
+    for (rc, out, err, secs, to) in outs:
+        if to:
+            res["status"] = "timeout"
+            res["errors"].append("cbmc timed out after %ds" % job.timeout)
+            return res
+        r1, m1, st1 = parse_cbmc_json(out)
+        if r1 is None or st1 is None or (not r1 and st1 != "success"):
+            res["status"] = "tool-error"
+            res["errors"].append("cbmc gave no result list (rc=%s): %s" % (rc, (err or out)[-1500:]))
+            return res
+        results += r1; msgs += m1
+        if st1 != "success":
+            status = st1
     res["messages_ignoring"] = [m for m in msgs if "ignoring" in m]
     res["obligations"] = len(results)
     for r in results:
@@ -347,10 +393,12 @@ def run_jobs(jobs, tier, builddir, nproc, log):
         solver = j.solver_for(tier)
         log("  start %-40s [%s, MAXW=%s, %s]" % (j.name, j.mode, maxw, solver))
         r = execute(j, tier, builddir, maxw, solver, log)
-        log("  done  %-40s %-10s %d/%d obligations, %.1fs%s" % (j.name, r["status"], r["discharged"], r["obligations"], r["seconds"],
+        log("  done  %-40s %-10s %d/%d obligations, %.1fs%s%s" % (j.name, r["status"], r["discharged"], r["obligations"], r["seconds"],
+            (" groups=" + str(r.get("group_seconds"))) if r.get("split_groups") else "",
             (" FAILED: " + ",".join(f["property"] for f in (r["failed"] + r["internal_failed"])[:4])) if (r["failed"] or r["internal_failed"]) else ""))
         return j.name, r
-    with ThreadPoolExecutor(max_workers=nproc) as ex:
+    # job threads only orchestrate; the number of concurrent tool processes is bounded by CPU_SLOTS
+    with ThreadPoolExecutor(max_workers=max(nproc * 3, 8)) as ex:
         for name, r in ex.map(one, order):
             results[name] = r
     return results
